@@ -389,6 +389,7 @@ type SpecFunc struct {
 	Recursive bool
 	Opaque    bool
 	File      string
+	Pkg       string
 }
 
 type Hint struct {
@@ -414,6 +415,7 @@ type InvDef struct {
 	Name string
 	Var  string
 	Body Expr
+	Pkg  string
 }
 
 type LoopSpec struct {
@@ -699,7 +701,7 @@ func ParseContractFile(path string, pkgPath string) (*ContractFile, error) {
 			}
 			ps, _ := splitParams(rest[i+1 : j])
 			after := strings.TrimSpace(rest[j+1:])
-			sf := &SpecFunc{Name: strings.TrimSpace(rest[:i]), Params: ps, File: path}
+			sf := &SpecFunc{Name: strings.TrimSpace(rest[:i]), Params: ps, File: path, Pkg: cf.Pkg}
 			if strings.HasPrefix(sf.Name, "opaque ") {
 				sf.Name = strings.TrimSpace(strings.TrimPrefix(sf.Name, "opaque "))
 				sf.Opaque = true
@@ -763,7 +765,7 @@ func ParseContractFile(path string, pkgPath string) (*ContractFile, error) {
 			if err != nil {
 				return nil, fail(l, err)
 			}
-			cf.Invs = append(cf.Invs, &InvDef{Type: hf[0], Name: hf[1][:i], Var: strings.TrimSuffix(hf[1][i+1:], ")"), Body: b})
+			cf.Invs = append(cf.Invs, &InvDef{Type: hf[0], Name: hf[1][:i], Var: strings.TrimSuffix(hf[1][i+1:], ")"), Body: b, Pkg: cf.Pkg})
 			cur, curLemma = nil, nil
 			continue
 		case "func", "iface", "funcfield":
